@@ -158,6 +158,11 @@ func init() {
 			c.Rule = "BFS over all sequences of set/delete/commit on a real 2-substore rootmulti.Store over MemDB (writes go through a CacheMultiStore flushed at commit, like baseapp); at every state reached by a commit: a copy of the DB is reopened by a fresh store (LoadLatestVersion and LoadVersion(v) for every committed v, node cache size 1 and default) and every read (Get/Has/all ranges both directions) plus commit ids are compared with the per-version map model; a second node re-applies the same blocks on an empty DB and must report identical commit ids. Non-trivial = history with at least one commit"
 			c.Assume("MemDB stands in for goleveldb (the code under test only sees dbm.DB); 'new process' = fresh store objects and fresh store keys on a byte copy of the DB")
 			msRunSpecs(c, c04Specs(c.Tier))
+			// with the node's state cache switched on (pocket config `cache`): chains long enough for the cache to recycle
+			// its slots; after every block the running node and a node reopened on a byte copy of its database (cache
+			// off) must read every saved version alike
+			c.Rule += "; with the state cache enabled: 15-block chains (all pairs of 6 per-block action sets, one-shot write/delete chains), after every block every saved version read by the running node == read by a node reopened on a copy of the database"
+			c10LongChains(c, 15)
 		},
 		Replay: msReplay(c04Specs),
 	})
